@@ -39,6 +39,11 @@ type xStmt struct {
 	Cond   bool     // if condition (constant)
 	Then   []*xStmt // if / loop body
 	Else   []*xStmt
+	// if: the header condition may itself raise; an optional 再如 branch whose condition is
+	// true, false or raises ("" = no 再如)
+	CondRaise bool
+	ElifKind  string
+	Elif      []*xStmt
 	RetVar string // ret: local to return ("" = literal Text)
 	Arg    int      // callf/callm argument (when the callee has a parameter)
 	HasArg bool
@@ -81,6 +86,9 @@ type xModule struct {
 	Main    *xBody // only for the main module
 	Source  string
 	CRLF    bool
+	// Private: importers list this module's functions (and exception class) by name; its ordinary
+	// class is named 箱 like the class of every other private module and stays inside the module
+	Private bool
 	// Bare: a file without a single 导入, whose top-level statements come FIRST (line 1 is an
 	// executable statement) and whose declarations follow; no probes, no file operations
 	Bare bool
@@ -151,6 +159,7 @@ func probeLib() *r.Library {
 // ------------------------------------------------------------------ generator
 
 type xGen struct {
+	private  map[string]bool // modules imported by name lists
 	usedDeep bool
 	t      *zsim.Tape
 	probes int
@@ -167,7 +176,7 @@ func (g *xGen) local() string { g.locals++; return fmt.Sprintf("量%d", g.locals
 var xModNames = []string{"主", "模一", "模二"}
 
 func genExcProgram(t *zsim.Tape) *xProgram {
-	g := &xGen{t: t, depthOf: map[string]int{}}
+	g := &xGen{t: t, depthOf: map[string]int{}, private: map[string]bool{}}
 	p := &xProgram{}
 	g.prog = p
 	nm := 1 + t.Draw(3)
@@ -177,6 +186,7 @@ func genExcProgram(t *zsim.Tape) *xProgram {
 	// modules are generated leaf-first so that calls only go to already generated code
 	for i := nm - 1; i >= 0; i-- {
 		m := &xModule{Name: xModNames[i]}
+		m.Private = i > 0 && t.Draw(2) == 1
 		// imports: later modules (already generated)
 		for j := i + 1; j < nm; j++ {
 			if i == 0 || t.Draw(2) == 1 {
@@ -196,11 +206,14 @@ func genExcProgram(t *zsim.Tape) *xProgram {
 				}
 			}
 			for _, c := range g.classes {
-				if ok[c.Module] {
+				if ok[c.Module] && (c.Module == m.Name || c.IsExc || !g.private[c.Module]) {
 					cs = append(cs, c)
 				}
 			}
 			return fs, cs
+		}
+		if m.Private {
+			g.private[m.Name] = true
 		}
 		// optionally a custom exception class and/or an ordinary class
 		if t.Draw(3) == 0 || latin {
@@ -211,8 +224,11 @@ func genExcProgram(t *zsim.Tape) *xProgram {
 			m.Classes = append(m.Classes, c)
 			g.classes = append(g.classes, c)
 		}
-		if t.Draw(2) == 0 {
+		if t.Draw(2) == 0 || m.Private {
 			c := &xClass{Name: fmt.Sprintf("箱%d", i), Module: m.Name}
+			if m.Private {
+				c.Name = "箱" // two modules may each have a class of this name for their own use
+			}
 			fs, cs := visible()
 			c.Ctor = &xBody{Kind: "ctor", Module: m.Name, Name: "新建" + c.Name, Class: c.Name}
 			c.Ctor.Stmts = g.stmts(c.Ctor, fs, cs, 1+t.Draw(2), 1, false)
@@ -232,7 +248,7 @@ func genExcProgram(t *zsim.Tape) *xProgram {
 			g.classes = append(g.classes, c)
 		}
 		nf := t.Draw(3)
-		if i > 0 && nf == 0 && len(m.Classes) == 0 {
+		if i > 0 && nf == 0 && (len(m.Classes) == 0 || m.Private) {
 			nf = 1
 		}
 		for k := 0; k < nf; k++ {
@@ -251,6 +267,21 @@ func genExcProgram(t *zsim.Tape) *xProgram {
 				rs := &xStmt{Kind: "recurse", Fn: fb.Name, Var: g.local()}
 				fb.Stmts = append(fb.Stmts[:pos], append([]*xStmt{rs}, fb.Stmts[pos:]...)...)
 			}
+			if m.Private && t.Draw(2) == 1 {
+				// the functions of a private module use the module's own class 箱: create one, call a method
+				for _, c := range m.Classes {
+					if !c.IsExc && len(c.Methods) > 0 {
+						mm := c.Methods[t.Draw(len(c.Methods))]
+						call := &xStmt{Kind: "callm", Obj: "私物", Fn: mm.Name, Class: c.Name, Var: g.local()}
+						if mm.Param != "" {
+							call.HasArg, call.Arg = true, t.Draw(50)
+						}
+						pair := []*xStmt{{Kind: "new", Class: c.Name, Var: "私物", Num: t.Draw(9)}, call}
+						pos := t.Draw(len(fb.Stmts) + 1)
+						fb.Stmts = append(fb.Stmts[:pos], append(pair, fb.Stmts[pos:]...)...)
+					}
+				}
+			}
 			g.declFault(fb)
 			g.catches(fb, fs, cs)
 			m.Funcs = append(m.Funcs, fb)
@@ -260,6 +291,17 @@ func genExcProgram(t *zsim.Tape) *xProgram {
 			m.Main = &xBody{Kind: "program", Module: m.Name, Name: "主程序"}
 			fs, cs := visible()
 			m.Main.Stmts = g.stmts(m.Main, fs, cs, 2+t.Draw(5), 1, true)
+			// the main program uses every private module it imports: one call each, at drawn positions
+			for _, f := range fs {
+				if g.private[f.Module] && !f.Recur && t.Draw(2) == 1 {
+					st := &xStmt{Kind: "callf", Fn: f.Name, Var: g.local()}
+					if f.Param != "" {
+						st.HasArg, st.Arg = true, t.Draw(50)
+					}
+					pos := t.Draw(len(m.Main.Stmts) + 1)
+					m.Main.Stmts = append(m.Main.Stmts[:pos], append([]*xStmt{st}, m.Main.Stmts[pos:]...)...)
+				}
+			}
 			g.declFault(m.Main)
 			g.catches(m.Main, fs, cs)
 		}
@@ -288,6 +330,7 @@ func makeBare(m *xModule) {
 			}
 			walk(s.Then)
 			walk(s.Else)
+			walk(s.Elif)
 		}
 	}
 	body := func(b *xBody) {
@@ -596,6 +639,14 @@ func (g *xGen) stmtsIn(b *xBody, fs []*xBody, cs []*xClass, n int, depth int, to
 			if g.t.Draw(2) == 1 {
 				st.Else = g.stmtsIn(b, fs, cs, 1+g.t.Draw(2), depth+1, false, &nameScope{parent: ns})
 			}
+			// conditions are expressions like any other: the header's, or a 再如 branch's, may raise
+			switch g.t.Draw(8) {
+			case 5:
+				st.CondRaise = true
+			case 6, 7:
+				st.ElifKind = []string{"true", "false", "raise", "raise"}[g.t.Draw(4)]
+				st.Elif = g.stmtsIn(b, fs, cs, 1+g.t.Draw(2), depth+1, false, &nameScope{parent: ns})
+			}
 			out = append(out, st)
 		case k == 14 && depth < 3:
 			st := &xStmt{Kind: []string{"while", "iter"}[g.t.Draw(2)], Var: g.local(), Num: 1 + g.t.Draw(3)}
@@ -623,6 +674,7 @@ func (g *xGen) stmtsIn(b *xBody, fs []*xBody, cs []*xClass, n int, depth int, to
 // ------------------------------------------------------------------ renderer (assigns physical lines)
 
 type xRender struct {
+	selective map[string]string // module name -> "a、b、c" for imports by name list
 	quiet int // number of statements before which no layout noise is inserted
 	sb   strings.Builder
 	line int
@@ -767,8 +819,15 @@ func (x *xRender) stmts(indent int, ss []*xStmt) {
 			if !s.Cond {
 				c = "假"
 			}
+			if s.CondRaise {
+				c = " 1 / 0 > 0"
+			}
 			s.Line = x.emit(indent, "如果"+c+"：")
 			x.stmts(indent+1, s.Then)
+			if s.ElifKind != "" {
+				x.emit(indent, "再如"+map[string]string{"true": " 1 > 0", "false": " 0 > 1", "raise": " 1 / 0 > 0"}[s.ElifKind]+"：")
+				x.stmts(indent+1, s.Elif)
+			}
 			if s.Else != nil {
 				x.emit(indent, "否则：")
 				x.stmts(indent+1, s.Else)
@@ -801,8 +860,8 @@ func (x *xRender) body(indent int, b *xBody) {
 	}
 }
 
-func renderModule(t *zsim.Tape, m *xModule, withProbe bool) {
-	x := &xRender{t: t, nl: "\n"}
+func renderModule(t *zsim.Tape, m *xModule, withProbe bool, selective map[string]string) {
+	x := &xRender{t: t, nl: "\n", selective: selective}
 	if m.CRLF {
 		x.nl = "\r\n"
 	}
@@ -817,7 +876,11 @@ func renderModule(t *zsim.Tape, m *xModule, withProbe bool) {
 		}
 		x.emit(0, "导入《@文件》")
 		for _, im := range m.Imports {
-			x.emit(0, "导入“"+im+"”")
+			if names := x.selective[im]; names != "" {
+				x.emit(0, "导入“"+im+"”的"+names)
+			} else {
+				x.emit(0, "导入“"+im+"”")
+			}
 		}
 		x.emit(0, "")
 	}
@@ -866,6 +929,7 @@ func renderModule(t *zsim.Tape, m *xModule, withProbe bool) {
 
 type xObj struct {
 	cls string
+	mod string // module that declares the class (two private modules may both have a class 箱)
 	val int
 }
 
@@ -1043,9 +1107,19 @@ func (m *xRef) run(ss []*xStmt) (ret *xVal, ex *xRaise) {
 			}
 			return &v, nil
 		case "if":
+			if s.CondRaise {
+				return nil, m.raise("异常", "被除数不得为0", "cond.if")
+			}
 			blk := s.Then
 			if !s.Cond {
 				blk = s.Else
+				switch s.ElifKind {
+				case "raise":
+					// (the whole 如果 … 再如 … 否则 is one statement: the fault is reported at its first line)
+					return nil, m.raise("异常", "被除数不得为0", "cond.elif")
+				case "true":
+					blk = s.Elif
+				}
 			}
 			if r, e := m.block(fr, blk); r != nil || e != nil {
 				return r, e
@@ -1091,7 +1165,7 @@ func (m *xRef) run(ss []*xStmt) (ret *xVal, ex *xRaise) {
 		case "callm":
 			o := fr.get(s.Obj).obj
 			var mb *xBody
-			for _, mm := range m.classes[s.Class].Methods {
+			for _, mm := range m.classOf(o.mod, s.Class).Methods {
 				if mm.Name == s.Fn {
 					mb = mm
 				}
@@ -1103,8 +1177,8 @@ func (m *xRef) run(ss []*xStmt) (ret *xVal, ex *xRaise) {
 			fr.declare(s.Var, v)
 			m.display = append(m.display, s.Var+"= "+v.String())
 		case "new":
-			c := m.classes[s.Class]
-			o := &xObj{cls: c.Name, val: s.Num}
+			c := m.classOf(fr.body.Module, s.Class)
+			o := &xObj{cls: c.Name, mod: c.Module, val: s.Num}
 			if _, e := m.call(c.Ctor, o, nil); e != nil {
 				return nil, e
 			}
@@ -1169,6 +1243,15 @@ type xExpect struct {
 	Probes  int
 }
 
+// classOf resolves a class name as seen from a module: the module's own class of that name
+// first, then the (unique) imported one.
+func (m *xRef) classOf(module, name string) *xClass {
+	if c := m.classes[module+"/"+name]; c != nil {
+		return c
+	}
+	return m.classes[name]
+}
+
 func refRun(p *xProgram, plan xPlan) *xExpect {
 	m := &xRef{prog: p, plan: plan, funcs: map[string]*xBody{}, classes: map[string]*xClass{}}
 	for _, mod := range p.Mods {
@@ -1177,6 +1260,7 @@ func refRun(p *xProgram, plan xPlan) *xExpect {
 		}
 		for _, c := range mod.Classes {
 			m.classes[c.Name] = c
+			m.classes[mod.Name+"/"+c.Name] = c
 		}
 	}
 	v, ex := m.call(p.Mods[0].Main, nil, nil)
@@ -1227,8 +1311,24 @@ func modFile(name string) string {
 
 func runExc(t *zsim.Tape, cfg *hlib.Config, prop string) *hlib.Outcome {
 	p := genExcProgram(t)
+	// importers of a private module list its functions and its exception class by name
+	selective := map[string]string{}
 	for _, m := range p.Mods {
-		renderModule(t, m, true)
+		if m.Private {
+			var names []string
+			for _, f := range m.Funcs {
+				names = append(names, f.Name)
+			}
+			for _, c := range m.Classes {
+				if c.IsExc {
+					names = append(names, c.Name)
+				}
+			}
+			selective[m.Name] = strings.Join(names, "、")
+		}
+	}
+	for _, m := range p.Mods {
+		renderModule(t, m, true, selective)
 	}
 	// fault-free reference run counts the dynamic probe invocations
 	base := refRun(p, xPlan{})
